@@ -98,10 +98,12 @@ def _plain_local(op):
     return p[0]
 
 
-def _next_callee(d, line):
+def _next_callee(d, line, ty=None):
+    s_ = d["types"][ty].get("s", "<desugared>") if ty is not None else "<desugared>"
+    a_ = (d["types"][ty].get("adt") or "<desugared>") if ty is not None else "<desugared>"
     return {"path": "std::iter::Iterator::next", "name": "next", "local": False, "krate": "core", "trait": "std::iter::Iterator", "trait_impl": False,
-            "self_ty": "<desugared>", "adt": "<desugared>", "substs": [],
-            "res": {"path": "<I as std::iter::Iterator>::next", "name": "next", "local": False, "krate": "core", "self_ty": "I", "adt": "<desugared>", "trait": "std::iter::Iterator", "trait_impl": True, "inst": "item"}}
+            "self_ty": s_, "adt": a_, "substs": [],
+            "res": {"path": "<%s as std::iter::Iterator>::next" % s_, "name": "next", "local": False, "krate": "core", "self_ty": s_, "adt": a_, "trait": "std::iter::Iterator", "trait_impl": True, "inst": "item"}}
 
 
 def _into_iter_callee():
@@ -178,7 +180,7 @@ def desugar_chain(cx, fn_by_path, ci, stages, line):
     UNREACH = cx.block([], {"k": "unreachable"})
     BODY = cx.block()
     f["blocks"][HEAD]["st"] = [{"k": "A", "p": [R1, []], "r": {"k": "ref", "mut": True, "p": [IT, []]}, "s": span}]
-    f["blocks"][HEAD]["term"] = {"k": "call", "f": _next_callee(d, line), "args": [{"m": [R1, []]}], "dest": [NX, []], "t": SW, "u": None, "s": span, "fs": span}
+    f["blocks"][HEAD]["term"] = {"k": "call", "f": _next_callee(d, line, f["locals"][it_local][0] if it_local is not None else None), "args": [{"m": [R1, []]}], "dest": [NX, []], "t": SW, "u": None, "s": span, "fs": span}
     D = cx.local()
     f["blocks"][SW]["st"] = [{"k": "A", "p": [D, []], "r": {"k": "disc", "p": [NX, []], "adt": "std::option::Option"}, "s": span}]
     f["blocks"][SW]["term"] = {"k": "switch", "d": {"m": [D, []]}, "vals": [0, 1], "tgts": [EXIT, BODY], "otherwise": UNREACH, "s": span}
@@ -375,8 +377,14 @@ def find_chains(d, f, fn_by_path, children):
                 continue
             if len(stages) == 1:
                 continue  # extend(plain iterable): nothing to desugar
-        if not any(_calls_local(c, fn_by_path, children) for c in cls):
-            continue  # pure combinator use: stays an atomic call
+        # the source iterator (what feeds the first stage)
+        first_t = stages[0][2]
+        src_op = (t["args"][1] if len(stages) == 1 else first_t["args"][0]) if name == "extend" else first_t["args"][0]
+        sl = _plain_local(src_op)
+        src_adt = d["types"][f["locals"][sl][0]].get("adt", "") if sl is not None else ""
+        hash_src = src_adt.startswith("std::collections::hash_map::") or src_adt.startswith("std::collections::hash_set::")
+        if not any(_calls_local(c, fn_by_path, children) for c in cls) and not (hash_src and name in ("collect", "extend", "for_each", "fold")):
+            continue  # pure combinator use: stays an atomic call (unless it turns hash order into a sequence)
         for bi, _, _ in stages:
             used.add(bi)
         ln = t.get("s")
